@@ -160,7 +160,21 @@ def t6_key_bits(T, consts):
             "Definition key_bits_arms : list (string * N * N) := [\n  "
             + ";\n  ".join('("%s", %d, %d)' % a for a in arms) + "\n].\n")
 
+def t3a_cipher_txt(T):
+    U = T.Untranslatable
+    rows = []
+    for ln, line in enumerate(T.read("scripts/tls-ciphersuites.txt").split("\n"), 1):
+        if not line.strip(): continue
+        cols = line.split(":")
+        if len(cols) < 10: raise U("scripts/tls-ciphersuites.txt:%d: expected at least 10 columns" % ln)
+        if any('"' in c for c in cols): raise U("scripts/tls-ciphersuites.txt:%d: quote in a column" % ln)
+        rows.append("  [" + "; ".join('"%s"' % c for c in cols[:10]) + "]")
+    return ("(* GENERATED by tools/translate.py (T3a) from scripts/tls-ciphersuites.txt (first 10 columns) -- do not edit *)\n"
+            "From Coq Require Import String List.\nImport ListNotations.\nOpen Scope string_scope.\n"
+            "Definition txt_rows : list (list string) := [\n" + ";\n".join(rows) + "\n].\n")
+
 def run(T, step, enums):
+    step("T3a", ["CipherTxt.v"], lambda: {"CipherTxt.v": t3a_cipher_txt(T)})
     if enums is not None:
         consts = T.const_lookup(enums)
         step("T2", ["StateTable.v"], lambda: {"StateTable.v": t2_states(T, consts)})
